@@ -614,7 +614,7 @@ func c01Stack(t *testing.T, prop string) {
 		default:
 			res.upLen, res.downLen = rng.Intn(r.N(400000, 6000000)), rng.Intn(2000)
 		}
-		maxFaults := rng.Intn(r.N(8, 15))
+		maxFaults := rng.Intn(r.N(8, 10))
 		if s < r.N(2, 6) {
 			res.outage = true
 			res.upLen, res.downLen = 3<<20, 1000
@@ -681,9 +681,10 @@ func c01Stack(t *testing.T, prop string) {
 
 	c01PeersReplacement(r)
 
-	// quick tier: at most 7 faults per session, a segment's timeout doubles from 0.2 s: pauses stay below 26 s, the
-	// window is half the budget (37 s). Thorough tier: up to 14 faults, the timeout reaches kcp-go's cap of 60 s and
-	// a segment lost again at the cap pauses the stream for another minute: the window is 150 s of a 300 s budget.
+	// A segment lost at every one of n carriers in a row is retransmitted after 0.2, 0.4, ... s (kcp-go doubles the
+	// timeout, cap 60 s); meanwhile nothing may move at all - the dead carrier is only noticed at the next write.
+	// Quick tier: at most 7 faults per session, pauses stay below 26 s, the window is half the budget (37 s).
+	// Thorough tier: at most 9 faults, pauses below 103 s, the window is 150 s of a 300 s budget.
 	quiet := budget / 2
 	for _, res := range all {
 		desc := fmt.Sprintf("session %d up %d down %d carriers %d faults [%s]", res.session, res.upLen, res.downLen, res.carriers, strings.Join(res.faults, " "))
